@@ -98,7 +98,14 @@ fn try_print(fd: Fd, msg: &str) -> core::fmt::Result {
         let res = rusl::unistd::write(fd, &buf[flushed..]).map_err(|_e| core::fmt::Error)?;
         match res.cmp(&0) {
             core::cmp::Ordering::Less => return Err(core::fmt::Error),
-            core::cmp::Ordering::Equal => return Ok(()),
+            core::cmp::Ordering::Equal => {
+                // Nothing was accepted, only fine if there was nothing left to write
+                return if flushed >= len {
+                    Ok(())
+                } else {
+                    Err(core::fmt::Error)
+                };
+            }
             core::cmp::Ordering::Greater => {
                 // Greater than zero
                 flushed += res as usize;
